@@ -156,18 +156,16 @@ fn parse_args(args: &[&str]) -> Result<ParsedInfo, Box<dyn Error>> {
 }
 
 /// Whether `path` (resolved, as walkdir resolves it) lies on another device than `root`.
+/// The device an entry is on, from the status record the follow mode selects.
 #[cfg(unix)]
-fn on_other_device(root: &str, path: &std::path::Path) -> bool {
+fn device_of(entry: &WalkEntry) -> Option<u64> {
     use std::os::unix::fs::MetadataExt;
-    match (std::fs::metadata(root), std::fs::metadata(path)) {
-        (Ok(root), Ok(entry)) => root.dev() != entry.dev(),
-        _ => false,
-    }
+    entry.metadata().ok().map(|m| m.dev())
 }
 
 #[cfg(not(unix))]
-fn on_other_device(_root: &str, _path: &std::path::Path) -> bool {
-    false
+fn device_of(_entry: &WalkEntry) -> Option<u64> {
+    None
 }
 
 fn process_dir(
@@ -181,9 +179,13 @@ fn process_dir(
     // filter and the -depth order are applied below.
     let mut walkdir = WalkDir::new(dir)
         .max_depth(config.max_depth)
-        .same_file_system(config.same_file_system)
         .follow_links(config.follow == Follow::Always)
         .follow_root_links(config.follow != Follow::Never);
+    // -xdev is applied below on unix: walkdir would examine every entry through
+    // its link and drop the ones it cannot examine, the starting point included.
+    if cfg!(not(unix)) {
+        walkdir = walkdir.same_file_system(config.same_file_system);
+    }
     if config.sorted_output {
         walkdir = walkdir.sort_by(|a, b| a.file_name().cmp(b.file_name()));
     }
@@ -200,6 +202,8 @@ fn process_dir(
     // status it had before they were visited (-delete changes it), so it
     // waits here until the walk leaves it.
     let mut pending: Vec<WalkEntry> = Vec::new();
+    // -xdev: the device of the starting point.
+    let mut root_device: Option<u64> = None;
     loop {
         let result = it.next();
         let done = result.is_none();
@@ -211,6 +215,8 @@ fn process_dir(
         // The directories the walk has just left come first, then what was
         // found next: its diagnostic, or the entry itself.
         let mut ready = Vec::new();
+        // Set when the walk was already told not to enter the entry just found.
+        let mut not_entered = false;
         while pending.last().is_some_and(|dir| dir.depth() >= depth) {
             ready.extend(pending.pop().map(Ok));
         }
@@ -219,6 +225,18 @@ fn process_dir(
         {
             Some(Err(err)) => ready.push(Err(err)),
             Some(Ok(entry)) => {
+                // -xdev: a directory on another file system is an entry like any
+                // other, but the walk does not go into it.
+                if config.same_file_system && entry.file_type().is_dir() {
+                    if entry.depth() == 0 {
+                        root_device = device_of(&entry);
+                    } else if let (Some(root), Some(dev)) = (root_device, device_of(&entry)) {
+                        if root != dev {
+                            it.skip_current_dir();
+                            not_entered = true;
+                        }
+                    }
+                }
                 if entry.depth() < config.min_depth {
                     // Not evaluated, but still walked.
                 } else if config.depth_first && entry.file_type().is_dir() {
@@ -265,13 +283,9 @@ fn process_dir(
                 break;
             }
             if matcher_io.should_skip_current_dir() && !config.depth_first {
-                // walkdir does not enter a directory on another file system
-                // (-xdev): there is nothing to skip then, and skipping would
-                // drop the rest of the parent directory instead.
-                let entered = !(config.same_file_system
-                    && entry.depth() > 0
-                    && on_other_device(dir, entry.path()));
-                if entered {
+                // (only the entry just found can be pruned: -depth is off; and the
+                // walk must not be told twice to skip)
+                if !not_entered {
                     it.skip_current_dir();
                 }
             }
